@@ -67,8 +67,24 @@ ArrVals == {AppA(ity, <<d>>) : ity \in {TInt, TBV(2), TS}, d \in LeafSet \cup Co
            \cup {AppA(ity, <<d, k, v>>) : ity \in {TInt, TBV(2)}, d \in {Leaves[2], Leaves[1], IntC(2)},
                     k \in ConstSet \cup {Leaves[2]}, v \in {Leaves[2], Leaves[1], Leaves[3], IntC(2)}}
 
+\* user-declared sorts that are NAMED like built-in sorts (Type("Int") is not Int), alone and inside array /
+\* function sorts, mixed with the built-in sorts they are named after
+KI == Sym("ki", TSort("Int"))
+KR == Sym("kr", TSort("Real"))
+KB == Sym("kb", TSort("Bool"))
+LeafC == {KI, KR, KB, Sym("x", TInt), Sym("r", TReal), Sym("p", TBool), Sym("a", TAII),
+          Sym("ak", TArray(TSort("Int"), TInt)), Sym("av", TArray(TInt, TSort("Real")))}
+TFK == TFun(TBool, <<TSort("Int")>>)
+Clash == {Ap(o, <<x>>, <<>>) : o \in Unary, x \in LeafC}
+         \cup {Ap(o, <<x, y>>, <<>>) : o \in Binary \cup Nary, x \in LeafC, y \in LeafC \cup {IntC(2), RealC(<<1, 2>>)}}
+         \cup {Ap(o, <<x, y, z>>, <<>>) : o \in {"ite", "array_store"}, x \in LeafC, y \in LeafC, z \in LeafC}
+         \cup {AppF("f", TF1, <<x>>) : x \in LeafC} \cup {AppF("fk", TFK, <<x>>) : x \in LeafC}
+         \cup {AppA(ity, <<d>>) : ity \in {TInt, TSort("Int")}, d \in LeafC}
+         \cup {AppA(ity, <<d, k, v>>) : ity \in {TInt, TSort("Int")}, d \in {KI, Sym("x", TInt)}, k \in {IntC(2)}, v \in {KI, Sym("x", TInt)}}
+
 Corpus == CASE Layer = "APPLY" -> Un \cup Bin \cup Ter \cup NA \cup Idx \cup Funs \cup ArrVals
             [] Layer = "QUANT" -> Quants
+            [] Layer = "CLASH" -> Clash
 
 VARIABLE done
 Init == done = FALSE /\ LET c == SetToSeq(Corpus)
